@@ -229,11 +229,14 @@ def cache_job(a):
             if nm not in ('no_cache', 'inf_cache'): kwd['maxsize'] = 50
             f = D(**kwd)(target)
             base = r.choice([1.234, 2.5, 0.125, 2.675, 1.005, 3.0])
+            eqtypes = (k + ci) % 4 == 3          # stratum: ==-equal arguments of different types back to back (3.0, 3, 3.0, ...)
+            if eqtypes: base = r.choice([3.0, 1.0])
             calls = []
             for _ in range(6):
-                x = base + r.choice([0, 0.004, 0.04, 0.4, -0.004, 1e-9])
+                x = base + r.choice([0, 0.004, 0.04, 0.4, -0.004, 1e-9] if not eqtypes else [0, 0, 0, 0.004])
+                if eqtypes and x == base and r.random() < .5: x = int(x) if r.random() < .7 or base != 1.0 else True
                 if r.random() < .3 and (kmk != 'raw' or mod == 'safe'): x = [x, r.choice([1, 'a', 2.55])] if r.random() < .5 else {'q': x}
-                form = r.choice(['pos', 'kw', 'default', 'extra'])
+                form = r.choice(['pos', 'kw', 'default', 'extra'] if not eqtypes else ['pos', 'pos', 'pos', 'default'])
                 calls.append((form, x))
             keys, viol = [], []
             for form, x in calls:
@@ -256,8 +259,13 @@ def cache_job(a):
                     continue
                 try:
                     kk = f.key(*args, **kw)
+                    before = set(f.__cache__())
                     f(*args, **kw)
                     cache = f.__cache__()
+                    added = set(cache) - before
+                    if nm != 'no_cache' and added and kk not in added:
+                        viol.append(dict(prop='C18', sig=dict(kind='key-not-the-slot', dec='%s.%s' % (mod, nm), tol=tol is not None, added=True),
+                                         msg='%s.%s(tol=%r, deep=%r, %s): key(%r,%r)=%.80r but the call was stored under %.200r' % (mod, nm, tol, deep, kmk, args, kw, kk, sorted(added, key=repr))))
                     if nm != 'no_cache' and kk not in cache:
                         viol.append(dict(prop='C18', sig=dict(kind='key-not-the-slot', dec='%s.%s' % (mod, nm), tol=tol is not None),
                                          msg='%s.%s(tol=%r, deep=%r, %s): key(%r,%r)=%.80r is not in the cache after the call (cache keys %.200r)' % (mod, nm, tol, deep, kmk, args, kw, kk, list(cache))))
